@@ -16,7 +16,7 @@ from __future__ import annotations
 
 import ast
 
-from .pyast import Unrecognised, clean, const, cstr, find_def, kw_defaults, parse, unparse
+from .pyast import Unrecognised, clean, const, cstr, find_def, if_chain, kw_defaults, parse, unparse
 
 
 def _exc_name(node):
@@ -186,6 +186,115 @@ def _replace_facts(mod):
     return both_err, noninit_first, noninit_err, need_dc, need_dict, leftover
 
 
+
+# ---- replace_subgroups ---------------------------------------------------------------------------
+
+SUB_LOOP_TAIL = [
+    "field_value = getattr(obj, field.name)",
+    "field_annotation = get_field_type_from_annotations(obj.__class__, field.name)",
+    "new_value = None",
+    None,  # the annotation test (exception class extracted)
+    "selection = selections.pop(field.name)",
+    "if isinstance(selection, dict):\n    value_of_selection = selection.pop(keyword, None)\n    child_selections = selection\n"
+    "else:\n    value_of_selection = selection\n    child_selections = None",
+    None,  # the resolution chain
+    "if child_selections:\n    new_value = replace_subgroups(field_value, child_selections)\nelse:\n    new_value = field_value",
+    "replace_kwargs[field.name] = new_value",
+]
+
+SUB_CHAIN = [
+    ("is_dataclass_type(value_of_selection)", ["field_value = value_of_selection()"]),
+    ("is_dataclass_instance(value_of_selection)", ["field_value = copy.deepcopy(value_of_selection)"]),
+    ("field.metadata.get('subgroups', None)",
+     ["assert isinstance(value_of_selection, str)",
+      "subgroup_selection = field.metadata['subgroups'][value_of_selection]",
+      "if is_dataclass_instance(subgroup_selection):\n    field_value = subgroup_selection\nelse:\n"
+      "    field_value = field.metadata['subgroups'][value_of_selection]()"]),
+    ("is_optional(field_annotation) and value_of_selection is None", ["field_value = None"]),
+    ("contains_dataclass_type_arg(field_annotation) and value_of_selection is None", ["field_value = field.default_factory()"]),
+]
+
+UNFLATTEN_SEL_BODY = [
+    "dc = {}",
+    "unflatten_those_top_level_keys = set()",
+    "for k, v in flattened.items():\n    splited_keys = k.split(sep)\n    if len(splited_keys) >= 2:\n"
+    "        unflatten_those_top_level_keys.add(splited_keys[0])",
+    "for k, v in flattened.items():\n    keys = k.split(sep)\n    top_level_key = keys[0]\n    rest_keys = keys[1:]\n"
+    "    if top_level_key in unflatten_those_top_level_keys:\n        sub_dc = dc.get(top_level_key, {})\n"
+    "        if len(rest_keys) == 0:\n            sub_dc[keyword] = v\n        else:\n"
+    "            sub_dc['.'.join(rest_keys)] = v\n        dc[top_level_key] = sub_dc\n    else:\n        dc[k] = v",
+    "if recursive:\n    for k in unflatten_those_top_level_keys:\n        v = dc.pop(k)\n"
+    "        unflatten_v = _unflatten_selection_dict(v, recursive=recursive)\n        dc[k] = unflatten_v",
+    "return dc",
+]
+
+
+def _subgroups_facts(mod):
+    fn = find_def(mod, "replace_subgroups")
+    if [x.arg for x in fn.args.args] != ["obj", "selections"] or unparse(kw_defaults(fn).get("selections", ast.Constant(0))) != "None":
+        raise Unrecognised("replace_subgroups signature")
+    body = clean(fn.body)
+    if len(body) != 6:
+        raise Unrecognised("replace_subgroups: %d top-level statements" % len(body))
+    kwa = body[0]
+    if not (isinstance(kwa, ast.Assign) and unparse(kwa.targets[0]) == "keyword"):
+        raise Unrecognised("replace_subgroups: keyword assignment")
+    keyword = const(kwa.value, str)
+    _expect(body[1], "if not selections:\n    return obj", "replace_subgroups: empty selections")
+    _expect(body[2], "selections = _unflatten_selection_dict(selections, keyword, recursive=False)", "replace_subgroups: unflattening")
+    _expect(body[3], "replace_kwargs = {}", "replace_subgroups: kwargs")
+    _expect(body[5], "return dataclasses.replace(obj, **replace_kwargs)", "replace_subgroups: final call")
+    loop = body[4]
+    if not isinstance(loop, ast.For) or unparse(loop.target) != "field" or unparse(loop.iter) != "dataclasses.fields(obj)" or loop.orelse:
+        raise Unrecognised("replace_subgroups: field loop header")
+    lb = clean(loop.body)
+    guards, noninit_err, i = [], None, 0
+    while i < len(lb) and isinstance(lb[i], ast.If) and not lb[i].orelse and len(guards) < 2:
+        t = unparse(lb[i].test)
+        gb = clean(lb[i].body)
+        if t == "field.name not in selections" and len(gb) == 1 and isinstance(gb[0], ast.Continue):
+            guards.append("absent")
+        elif t == "not field.init" and len(gb) == 1:
+            noninit_err = _exc_name(gb[0])
+            guards.append("noninit")
+        else:
+            break
+        i += 1
+    if sorted(guards) != ["absent", "noninit"]:
+        raise Unrecognised(f"replace_subgroups: guards at the top of the field loop are {guards}")
+    rest = lb[i:]
+    if len(rest) != len(SUB_LOOP_TAIL):
+        raise Unrecognised("replace_subgroups: field loop tail has %d statements" % len(rest))
+    nodc_err = invalid_err = None
+    for st, want in zip(rest, SUB_LOOP_TAIL):
+        if want is not None:
+            _expect(st, want, "replace_subgroups: loop statement")
+    ann = rest[3]
+    if not (isinstance(ann, ast.If) and unparse(ann.test) == "not contains_dataclass_type_arg(field_annotation)"
+            and not ann.orelse and len(clean(ann.body)) == 1):
+        raise Unrecognised("replace_subgroups: annotation test")
+    nodc_err = _exc_name(clean(ann.body)[0])
+    arms, els = if_chain(rest[6])
+    got = [(unparse(t), [unparse(x) for x in b]) for t, b in arms]
+    if got != SUB_CHAIN:
+        raise Unrecognised("replace_subgroups: resolution chain changed: " + str(got)[:400])
+    if len(els) != 1:
+        raise Unrecognised("replace_subgroups: final else of the resolution chain")
+    invalid_err = _exc_name(els[0])
+    us = find_def(mod, "_unflatten_selection_dict")
+    if [a.arg for a in us.args.args] != ["flattened", "keyword", "sep", "recursive"]:
+        raise Unrecognised("_unflatten_selection_dict signature")
+    d = kw_defaults(us)
+    if const(d["keyword"], str) != keyword:
+        raise Unrecognised("_unflatten_selection_dict: keyword default differs from the one replace_subgroups pops")
+    sep = _sep_default(us, "_unflatten_selection_dict")
+    if sep != ".":
+        raise Unrecognised("_unflatten_selection_dict: sep default is not '.', but rest keys are re-joined with '.'")
+    if _body_text(us) != UNFLATTEN_SEL_BODY:
+        raise Unrecognised("_unflatten_selection_dict body changed")
+    return keyword, sep, guards[0] == "noninit", noninit_err, nodc_err, invalid_err
+
+
 def _b(x):
     return "true" if x else "false"
 
@@ -195,6 +304,7 @@ def emit(repo: str) -> str:
     mod = parse(repo, "simple_parsing/replace.py")
     sep, jsep = _utils_facts(utils)
     both_err, noninit_first, noninit_err, need_dc, need_dict, leftover = _replace_facts(mod)
+    keyword, ssep, s_first, s_noninit_err, s_nodc_err, s_invalid_err = _subgroups_facts(mod)
     return (
         "From SPV Require Import Base.Str Model.Replace.\nOpen Scope string_scope.\n"
         f"(* unflatten_split sep={sep!r}, flatten_join sep={jsep!r} *)\n"
@@ -206,4 +316,10 @@ def emit(repo: str) -> str:
         "Definition replace_call_gen := replace_call facts_gen.\n"
         "Definition unflatten_split_gen := unflatten_split (f_sep facts_gen).\n"
         "Definition flatten_join_gen := flatten_join (f_join_sep facts_gen).\n"
+        "(* replace_subgroups *)\n"
+        "Definition sfacts_gen : sfacts :=\n"
+        f"  mksfacts {cstr(keyword)} (ascii_of_nat {ord(ssep)}) {_b(s_first)} {cstr(s_noninit_err)} {cstr(s_nodc_err)} "
+        f"{cstr(s_invalid_err)}.\n"
+        "Definition rsub_gen := rsub sfacts_gen.\n"
+        "Definition unflatten_selection_gen := unflatten_selection sfacts_gen.\n"
     )
